@@ -340,7 +340,12 @@ def explore(fn, on_path=None, max_paths=10 ** 9, max_seconds=None):
             if st.paths + st.aborted >= max_paths:
                 st.incomplete = st.incomplete or 'max_paths'
                 break
-            if not c.advance():
+            try:
+                more = c.advance()
+            except EngineLimit as ex:
+                st.incomplete = st.incomplete or ('EngineLimit: %s' % ex)
+                break
+            if not more:
                 break
     except Inconclusive as ex:
         st.incomplete = st.incomplete or ('inconclusive: %s' % ex)
